@@ -222,20 +222,20 @@ func c01(c *core.Ctx) {
 	cm := corpusMsgs()
 	c.Family("corpus", len(cm)*36, func(k *core.Case) { c01One(k, cm[k.Index/36], k.Index%36, k.Index%4) })
 	c.Family("corpus-nokey", len(cm), func(k *core.Case) { c01NoKey(k, cm[k.Index]) })
-	c.Family("cells", c.N(36*600, 36*40000), func(k *core.Case) {
+	c.Family("cells", c.N(36*600, 36*200000), func(k *core.Case) {
 		m := gen.Msg(k.R, gen.Opt{Protected: true, AllowBig: k.Index%7 == 0, AllowEmpty: true})
 		c01One(k, m, k.Index%36, (k.Index/36)%4)
 	})
 	c.Family("empty", 36*4, func(k *core.Case) {
 		c01One(k, gen.Header(k.R), k.Index%36, (k.Index/36)%4)
 	})
-	c.Family("singles", c.N(36*60, 36*1500), func(k *core.Case) {
+	c.Family("singles", c.N(36*60, 36*10000), func(k *core.Case) {
 		m := gen.Header(k.R)
 		kinds := gen.AllKinds()
 		m.Payloads = []abs.Payload{gen.Payload(k.R, kinds[(k.Index/36)%len(kinds)])}
 		c01One(k, m, k.Index%36, k.R.Intn(4))
 	})
-	c.Family("near-limit", c.N(36*4, 36*60), func(k *core.Case) {
+	c.Family("near-limit", c.N(36*4, 36*400), func(k *core.Case) {
 		// protected size close to the 16-bit SK payload length
 		m := gen.Header(k.R)
 		inner := 65535 - 4 - 16 - 16 - 16 - k.R.Intn(40) // SK hdr, IV, max pad block, max ICV
@@ -245,9 +245,9 @@ func c01(c *core.Ctx) {
 		}
 		c01One(k, m, k.Index%36, k.R.Intn(4))
 	})
-	c.Family("sessions", c.N(36*30, 36*2000), c01Session)
+	c.Family("sessions", c.N(36*30, 36*20000), c01Session)
 	c.Require("sessions")
-	c.Family("nokey", c.N(8000, 300000), func(k *core.Case) {
+	c.Family("nokey", c.N(8000, 2000000), func(k *core.Case) {
 		c01NoKey(k, gen.Msg(k.R, gen.Opt{AllowBig: k.Index%9 == 0, AllowEmpty: true}))
 	})
 }
@@ -393,10 +393,10 @@ func c06(c *core.Ctx) {
 	cm := corpusMsgs()
 	c.Family("corpus-fwd", len(cm)*18, func(k *core.Case) { c06Forward(k, cm[k.Index/18], k.Index%18) })
 	c.Family("corpus-bwd", len(cm)*4, func(k *core.Case) { c06Backward(k, cm[k.Index/4], k.R.Intn(36)) })
-	c.Family("fwd", c.N(18*400, 18*20000), func(k *core.Case) {
+	c.Family("fwd", c.N(18*400, 18*150000), func(k *core.Case) {
 		c06Forward(k, gen.Msg(k.R, gen.Opt{Protected: true, AllowBig: k.Index%11 == 0, AllowEmpty: true}), k.Index%18)
 	})
-	c.Family("bwd", c.N(36*100, 36*5000), func(k *core.Case) {
+	c.Family("bwd", c.N(36*100, 36*40000), func(k *core.Case) {
 		c06Backward(k, gen.Msg(k.R, gen.Opt{Protected: true, AllowEmpty: true, MaxPayloads: 4}), k.Index%36)
 	})
 	c.Family("bwd-empty", 36, func(k *core.Case) { c06Backward(k, gen.Header(k.R), k.Index%36) })
